@@ -50,6 +50,19 @@ def denote(e, ctors):
             return set(SETS[nm])
         if nm in GENERAL:
             return set(SETS[GENERAL[nm]])
+    # conjunction / disjunction of two denotable results: `a & b` (BitAnd::bitand), `a | b`, Predicate::and / or (the combinators are judged by C32-comb)
+    if e.get('k') == 'Binary' and e.get('op') in ('&', '|'):
+        a, b = denote(e['x'], ctors), denote(e['y'], ctors)
+        if a is not None and b is not None:
+            return (a & b) if e['op'] == '&' else (a | b)
+    if e.get('k') in ('Call', 'MCall') and T.last_seg(T.callee(e) or e.get('n') or '') in ('bitand', 'bitor', 'and', 'or'):
+        args = ([e['r']] if e.get('k') == 'MCall' else []) + list(e.get('a', []))
+        if len(args) == 2:
+            a, b = denote(args[0], ctors), denote(args[1], ctors)
+            if a is not None and b is not None:
+                return (a & b) if T.last_seg(T.callee(e) or e.get('n') or '') in ('bitand', 'and') else (a | b)
+    if e.get('k') == 'Block' and 'e' in e and not e.get('s'):
+        return denote(e['e'], ctors)
     return None
 
 
